@@ -23,6 +23,10 @@ pub enum POp {
     AllocBytes { n: u16, payload: u8 },
     /// alloc_bytes(largest free segment * num / 8 + d), resolved when the operation starts
     AllocRel { num: u8, d: i8, payload: u8 },
+    /// alloc_bytes(size field of the free-list node at list position `ix` (monotone map onto the list) + d), resolved
+    /// when the operation starts: with d <= 0 a Pessimistic arena serves it from that node or an earlier one of the same
+    /// size, so several threads can be made to work on different nodes of one list at the same time
+    AllocSeg { ix: u8, d: i8, payload: u8 },
     AllocAligned { ty: u8, n: u16, payload: u8 },
     AllocTyped { ty: u8, payload: u8 },
     AllocOwned { n: u16 },
@@ -690,13 +694,19 @@ fn run_prog(sh: &Arc<Shared>, t: usize, arena: &'static Arena, prog: &[POp], clo
     for (pi, op) in prog.iter().enumerate() {
         set_op(format!("op {pi} {op:?}"));
         match op {
-            POp::AllocBytes { .. } | POp::AllocRel { .. } | POp::AllocAligned { .. } | POp::AllocTyped { .. } | POp::AllocOwned { .. } | POp::AllocHuge { .. } => {
+            POp::AllocBytes { .. } | POp::AllocRel { .. } | POp::AllocSeg { .. } | POp::AllocAligned { .. } | POp::AllocTyped { .. } | POp::AllocOwned { .. } | POp::AllocHuge { .. } => {
                 // req = (kind: 0 bytes, 1 aligned, 2 typed; type index; n) - what C03 promises about the result
                 let (r, payload, is_bytes, owned, req) = match op {
                     POp::AllocBytes { n, payload } => (alloc_bytes(arena, *n as u32, false), *payload, true, false, (0u8, 0usize, *n as u32)),
                     POp::AllocRel { num, d, payload } => {
                         let head = arena.verif_freelist(64).nodes.iter().map(|n| n.1).max().unwrap_or(64) as i64;
                         let n = (head * (*num as i64 % 9) / 8 + *d as i64).clamp(1, 4096) as u32;
+                        (alloc_bytes(arena, n, false), *payload, true, false, (0, 0, n))
+                    }
+                    POp::AllocSeg { ix, d, payload } => {
+                        let nodes = arena.verif_freelist(64).nodes;
+                        let n = if nodes.is_empty() { 16 } else { (nodes[(*ix as usize * nodes.len()) >> 8].1 as i64 + *d as i64).clamp(1, 4096) as u32 };
+                        lock(sh).classes.insert("segment-targeted-request");
                         (alloc_bytes(arena, n, false), *payload, true, false, (0, 0, n))
                     }
                     POp::AllocOwned { n } => (alloc_bytes(arena, *n as u32, true), 0, true, true, (0, 0, *n as u32)),
@@ -1026,7 +1036,7 @@ pub fn run_case_b(case: &CaseB, o: &OptsB) -> RunB {
 
 fn run_case_b_inner(case: &CaseB, o: &OptsB) -> RunB {
     let mut out = RunB { classes: BTreeSet::new(), viol: None, steps: 0, switches: 0, cas_failures: 0, freelist_threads: 0, saw_marked: false, owner_changes: 0, inconclusive: false };
-    let n = case.progs.len().clamp(1, 4);
+    let n = case.progs.len().clamp(1, 5);
     // 1. arena + pre-history on the main thread (Engine A, unscheduled)
     let mut cfg = case.cfg.clone();
     cfg.flavor = crate::case::Fl::Sync;
